@@ -385,6 +385,27 @@ func (g *gen) stmt(p path, s ast.Stmt) []path {
 			}
 		}
 		return out
+	case *ast.RangeStmt:
+		// `for x := range ch/slice`: either nothing (more) to iterate over — continue
+		// after the loop — or one iteration of the body, unrolled once
+		q0 := p.clone()
+		g.addCalls(&q0, x.X, nil)
+		out := []path{}
+		skip := q0.clone()
+		skip.evs = append(skip.evs, ev{"Cond", "range " + txt(x.X) + " has next", "false"})
+		out = append(out, skip)
+		enter := q0.clone()
+		enter.evs = append(enter.evs, ev{"Cond", "range " + txt(x.X) + " has next", "true"})
+		body := g.stmts([]path{enter}, x.Body.List)
+		for _, b := range body {
+			if !b.done {
+				b = b.clone()
+				b.evs = append(b.evs, ev{"LoopEnd", "", ""})
+				b.done = true
+			}
+			out = append(out, b)
+		}
+		return out
 	case *ast.SelectStmt:
 		var out []path
 		for _, c := range x.Body.List {
